@@ -117,6 +117,49 @@ func init() {
 			}
 			w.close()
 		}
+		// a swap whose claim keeps failing until the retry budget of one event is used up is still not finished: its
+		// channel stays taken (judged on the STORED records: what the node has, not what its registry remembers)
+		for _, fam := range []struct{ role, chain, fault, trigger string }{
+			{"outSender", "btc", "preimage", "confirm"}, {"inReceiver", "lbtc", "preimage", "confirm"},
+			{"inSender", "btc", "csv", "csv"}, {"outReceiver", "lbtc", "csv", "csv"},
+		} {
+			w := newWorld(defaultCfg())
+			a := newCtx(w)
+			base := baseScript(fam.role, fam.chain)
+			base[0] += " scid=100x1x0"
+			var hist []string
+			for _, st := range base[:len(base)-1] {
+				hist = append(hist, st+" -> "+a.Step(st))
+			}
+			for k := 0; k < 25; k++ {
+				a.Step("fault " + fam.fault + " down")
+			}
+			hist = append(hist, "25 x fault "+fam.fault+" down", fam.trigger+" -> "+a.Step(fam.trigger))
+			st := a.state()
+			hist = append(hist, "state "+st)
+			res.Evaluations++
+			res.Histogram["retry budget used up in "+st]++
+			if !finishedState(st) && st != "" {
+				for _, probe := range []string{"new outReceiver " + fam.chain + " scid=100x1x0", "new inReceiver " + fam.chain + " scid=100:1:0"} {
+					b := newCtx(w)
+					sentBefore := len(w.msgr.sent)
+					out := b.Step(probe)
+					hist = append(hist, probe+" -> "+out)
+					for _, m := range w.msgr.sent[sentBefore:] {
+						if m.typ == messages.MESSAGETYPE_SWAPINAGREEMENT || m.typ == messages.MESSAGETYPE_SWAPOUTAGREEMENT {
+							res.addFinding("C10/busy-channel-request-not-cancelled/after-exhausted-retries", "a request for the channel of a swap that is still claiming (retry budget used up) was answered with an agreement", append([]string{}, hist...))
+						}
+					}
+				}
+				if _, err := w.svc.SwapOut(peerNode, fam.chain, "100:1:0", selfNode, 1000000, 50000); err == nil {
+					res.addFinding("C10/two-active-swaps-on-one-channel/after-exhausted-retries", "a local swap-out was started on the channel of a swap that is still claiming", append([]string{}, hist...))
+				}
+			}
+			if d := storedChannelClash(w); d != "" {
+				res.addFinding("C10/two-active-swaps-on-one-channel/stored", "two stored non-terminal swaps share channel "+d, append([]string{}, hist...))
+			}
+			w.close()
+		}
 		for i := 0; i < n; i++ {
 			w := newWorld(defaultCfg())
 			var ctxs []*Ctx
@@ -202,6 +245,9 @@ func init() {
 						}
 					}
 				}
+			}
+			if d := storedChannelClash(w); d != "" {
+				res.addFinding("C10/two-active-swaps-on-one-channel/stored", "two stored non-terminal swaps share channel "+d, append([]string{}, hist...))
 			}
 			k := strings.Join(hist, ";")
 			if !seen[k] {
@@ -330,6 +376,29 @@ func peerEventOf(role, step string) string {
 			return "Event_OnFeeInvoiceReceived"
 		}
 		return "Event_SwapInSender_OnAgreementReceived"
+	}
+	return ""
+}
+
+// storedChannelClash: two stored swaps in non-terminal states on one (normalised) channel; "" if none
+func storedChannelClash(w *World) string {
+	all, err := w.store.inner.ListAll()
+	if err != nil {
+		return ""
+	}
+	seen := map[string]bool{}
+	for _, m := range all {
+		if m == nil || m.Data == nil || finishedState(string(m.Current)) {
+			continue
+		}
+		ch := strings.ReplaceAll(m.Data.GetScid(), ":", "x")
+		if ch == "" {
+			continue
+		}
+		if seen[ch] {
+			return ch
+		}
+		seen[ch] = true
 	}
 	return ""
 }
